@@ -23,6 +23,16 @@
 (*   Leave   call_lua_sandbox cuts lua_env_stack back to its length at entry  *)
 (*           whatever the way the call ended (Dev "EnvKeptOnAbort": not when  *)
 (*           it ended in an exception on the Python side)                     *)
+(*   Limit   (round 8) the time limit is an OPTION OF THE CALL expand(...,      *)
+(*           timeout=t): _lua_set_timeout, called by _lua_invoke before the     *)
+(*           Push, stores the limit of THIS call - or the default when the call *)
+(*           gives none - in the Lua runtime (_lua_current_max_time,            *)
+(*           _lua_deadline; one runtime per context, start_page does not touch  *)
+(*           it) iff lua_env_stack is empty: nested invocations run under the   *)
+(*           limit of the outermost one.  Kinds whose call is GIVEN a small     *)
+(*           limit: Limited; "slow" runs for longer than the small limit and    *)
+(*           far shorter than the default (Dev "TimeLimitKept": a call that     *)
+(*           gives no limit runs under the one an earlier call left there)      *)
 (* Environments are table identities (a module instance keeps the             *)
 (* environment its chunk ran in; require() runs the chunk in the environment  *)
 (* on top of the stack), hence the little heap.                               *)
@@ -47,6 +57,8 @@ CONSTANT Dev   \* "EnvKeptOnAbort": an invocation that ends in a host-side excep
                \*    top-level invocations only; as-is): module-level state, and - through the environment the cached
                \*    chunk ran in - globals and library patches of one nested invocation reach a later sibling that
                \*    uses the same module; ideal: every invocation gets its own instances of the page modules
+               \* "TimeLimitKept": a top-level invocation whose call gives no time limit runs under the limit an earlier
+               \*    call left in the Lua runtime (class of the seeded change of round 8)
                \* "NestedSharesCallerEnv": a nested invocation runs in the environment on top of lua_env_stack itself
                \*    instead of a clone of it (class of the seeded change of round 7)
 
@@ -63,7 +75,11 @@ LoadData == {"ldset", "ldget", "ljset", "ljget"}
 NestOnly == {"tset", "tget", "view"}
 InBand  == {"nofn", "err", "loaderr"}       \* Lua-side failures returned as ok = false
 Raising == {"nomod", "nilmod", "synmod", "badutf", "timeout"}   \* end in an exception on the Python side
-Simple  == Probes \cup LoadData \cup InBand \cup Raising
+\* the time limit as an option of the call (one expand() per invocation): lim_peek = Module:Ctr peek called with a
+\* small limit, slow = Module:F slow (runs 1-2 s) called without a limit, lim_slow = the same called with a small limit
+TimeKinds == {"lim_peek", "slow", "lim_slow"}
+Limited == {"timeout", "lim_peek", "lim_slow"}      \* the call of these kinds is given a small time limit
+Simple  == Probes \cup LoadData \cup InBand \cup Raising \cup TimeKinds
 \* Module:N: sets the global MARK, then makes a NESTED #invoke through frame:preprocess (n_) or
 \* frame:expandTemplate (t_) and returns the nested result in brackets
 Nested  == {"n_nomod", "n_nilmod", "n_synmod", "n_badutf", "n_nofn", "n_err", "n_loaderr", "n_bump", "t_nomod", "t_badutf", "t_bump"}
@@ -76,7 +92,7 @@ Disturbing == InBand \cup Raising \cup Nested
 
 \* page modules that exist, compile and return a table
 Mods == {"Ctr", "Req", "G", "R", "Str", "F", "N", "LD", "Tab", "V", "Nest", "Nest2"}
-ModOf(k) == CASE k \in Counter -> "Ctr" [] k = "reqbump" -> "Req" [] k \in {"gset", "gget"} -> "G" [] k = "rget" -> "R"
+ModOf(k) == CASE k \in Counter \cup {"lim_peek"} -> "Ctr" [] k \in {"slow", "lim_slow"} -> "F" [] k = "reqbump" -> "Req" [] k \in {"gset", "gget"} -> "G" [] k = "rget" -> "R"
               [] k \in {"sset", "sget"} -> "Str" [] k \in LoadData -> "LD" [] k \in {"nofn", "err", "badutf", "timeout"} -> "F"
               [] k = "nomod" -> "Nomod" [] k = "nilmod" -> "Nil" [] k = "synmod" -> "Syn" [] k = "loaderr" -> "Bad"
               [] k \in Nested -> "N" [] k \in {"tset", "tget"} -> "Tab" [] k = "view" -> "V"
@@ -84,7 +100,7 @@ ModOf(k) == CASE k \in Counter -> "Ctr" [] k = "reqbump" -> "Req" [] k \in {"gse
 Env0 == [g |-> "nil", s |-> "nil", t |-> "nil"]          \* _G after _lua_reset_env: no MARK, string.leaked = table.leaked = nil
 NoInst == [on |-> FALSE, n |-> 0, env |-> 0]
 Data0 == [ld |-> "init", lj |-> "init"]                \* field x of the two data tables as their pages define it
-S0 == [heap |-> <<>>, stk |-> <<>>, loaded |-> [m \in Mods |-> NoInst], data |-> Data0]
+S0 == [heap |-> <<>>, stk |-> <<>>, loaded |-> [m \in Mods |-> NoInst], data |-> Data0, lim |-> "default"]
 TopIdx(s) == s.stk[Len(s.stk)]
 TopEnv(s) == IF s.stk = <<>> THEN Env0 ELSE s.heap[TopIdx(s)]
 
@@ -92,6 +108,10 @@ Reset(s) == IF s.stk = <<>>
             THEN [s EXCEPT !.loaded = [m \in Mods |-> NoInst],
                            !.data = IF "LoadDataTableMutableWithinPage" \in Dev THEN @ ELSE Data0]
             ELSE s
+\* _lua_set_timeout (before the Push): only the outermost invocation starts the clock
+SetLimit(s, k) == IF s.stk # <<>> THEN s
+                  ELSE IF k \in Limited THEN [s EXCEPT !.lim = "small"]
+                  ELSE IF "TimeLimitKept" \in Dev THEN s ELSE [s EXCEPT !.lim = "default"]
 Push(s)  == IF s.stk # <<>> /\ "NestedSharesCallerEnv" \in Dev
             THEN [s EXCEPT !.stk = Append(@, TopIdx(s))]             \* no clone: the caller's own environment again
             ELSE [s EXCEPT !.heap = Append(@, TopEnv(s)), !.stk = Append(@, Len(s.heap) + 1)]
@@ -117,7 +137,9 @@ Body(s, k) ==
          [] k = "badutf" -> R(s1, "empty", "", TRUE)
          [] k = "bump" -> R([s1 EXCEPT !.loaded[m].n = @ + 1], "val", ToString(inst.n + 1), FALSE)
          [] k = "bump2" -> R([s1 EXCEPT !.loaded[m].n = @ + 2], "val", ToString(inst.n + 2), FALSE)
-         [] k = "peek" -> R(s1, "val", ToString(inst.n), FALSE)
+         [] k \in {"peek", "lim_peek"} -> R(s1, "val", ToString(inst.n), FALSE)
+         \* longer than the small limit, shorter than the default: the limit in force decides
+         [] k \in {"slow", "lim_slow"} -> IF s1.lim = "small" THEN R(s1, "timeout", "", TRUE) ELSE R(s1, "val", "done", FALSE)
          [] k = "reqbump" -> R([cs EXCEPT !.loaded["Ctr"].n = @ + 1], "val", ToString(cs.loaded["Ctr"].n + 1), FALSE)
          [] k = "gset" -> R([s1 EXCEPT !.heap[inst.env].g = "set"], "val", s1.heap[inst.env].g, FALSE)
          [] k \in {"gget", "rget"} -> R(s1, "val", s1.heap[inst.env].g, FALSE)
@@ -132,7 +154,7 @@ Body(s, k) ==
          [] k = "view" -> R(s1, "val", <<s1.heap[inst.env].g, s1.heap[inst.env].s, s1.heap[inst.env].t>>, FALSE)
 
 Out(k, res, v, ires, iv) == [k |-> k, res |-> res, v |-> v, ires |-> ires, iv |-> iv]
-InvS(s, k) == LET b == Body(Push(Reset(s)), k) IN [s |-> Leave(b.s, Len(s.stk), b.ab), res |-> b.res, v |-> b.v]
+InvS(s, k) == LET b == Body(Push(SetLimit(Reset(s), k)), k) IN [s |-> Leave(b.s, Len(s.stk), b.ab), res |-> b.res, v |-> b.v]
 \* package.loaded as a NESTED invocation finds it / as its caller finds it again afterwards
 ForNested(s) == IF "NestedInvokeSharesLoadedModules" \in Dev THEN s ELSE [s EXCEPT !.loaded = [m \in Mods |-> NoInst]]
 BackIn(s, caller) == IF "NestedInvokeSharesLoadedModules" \in Dev THEN s ELSE [s EXCEPT !.loaded = caller.loaded]
